@@ -45,6 +45,8 @@ TypeRhs(v) ==
                        v |-> <<"SimpleSyntax", "Integer32", <<"integerSubType", <<<<Num("@I64MIN"), Num("-1")>>>>>>>>]
     [] v = "enum" -> [t |-> <<"INTEGER", "{", "one", "(", "1", ")", ",", "two", "(", "2", ")", "}">>,
                       v |-> <<"SimpleSyntax", "INTEGER", <<"enumSpec", <<<<"one", Num("1")>>, <<"two", Num("2")>>>>>>>>]
+    [] v = "enumup" -> [t |-> <<"INTEGER", "{", "One", "(", "1", ")", ",", "two", "(", "2", ")", "}">>,      \* upper-case label: relaxed dialects only
+                        v |-> <<"SimpleSyntax", "INTEGER", <<"enumSpec", <<<<"One", Num("1")>>, <<"two", Num("2")>>>>>>>>]
     [] v = "size" -> [t |-> <<"OCTET", "STRING", "(", "SIZE", "(", "0", "..", "8", "|", "16", ")", ")">>,
                       v |-> <<"SimpleSyntax", "OCTET STRING", <<"octetStringSubType", <<<<Num("0"), Num("8")>>, <<Num("16")>>>>>>>>]
     [] v = "bits" -> [t |-> <<"BITS", "{", "b0", "(", "0", ")", ",", "b1", "(", "1", ")", "}">>,
@@ -66,9 +68,13 @@ Defval(v) == CASE v = "none" -> [t |-> <<>>, v |-> NoneV]
 RECURSIVE IdxToks(_, _)
 IdxToks(n, i) == IF i > n THEN <<>> ELSE (IF i > 1 THEN <<",">> ELSE <<>>) \o (IF i = n /\ n > 1 THEN <<"IMPLIED">> ELSE <<>>) \o <<Names(n)[i]>> \o IdxToks(n, i + 1)
 IdxTree(n) == [i \in 1..n |-> <<Num(IF i = n /\ n > 1 THEN "1" ELSE "0"), Names(n)[i]>>]
+\* RFC 1212 style index by type (supportIndex dialects): INDEX { INTEGER, a-one }   -- encoded as idx = 9
+TypeIdxToks == <<"INTEGER", ",", "a-one">>
+TypeIdxTree == <<<<Num("0"), "INTEGER">>, <<Num("0"), "a-one">>>>
 SynForms == {"INTEGER", "named", "size", "seqof"}
 ObjSyntax(f) == CASE f = "INTEGER" -> [t |-> <<"INTEGER">>, v |-> <<"SimpleSyntax", "INTEGER">>]
                   [] f = "named" -> [t |-> <<"My-Type">>, v |-> <<"row", "My-Type">>]
+                  [] f = "netaddr" -> [t |-> <<"NetworkAddress">>, v |-> <<"ApplicationSyntax", "NetworkAddress", NoneV>>]   \* SMIv1 keyword dialects
                   [] f = "size" -> [t |-> <<"OCTET", "STRING", "(", "SIZE", "(", "0", "..", "4", ")", ")">>,
                                     v |-> <<"SimpleSyntax", "OCTET STRING", <<"octetStringSubType", <<<<Num("0"), Num("4")>>>>>>>>]
                   [] f = "seqof" -> [t |-> <<"SEQUENCE", "OF", "MyEntry">>, v |-> <<"conceptualTable", <<"row", "MyEntry">>>>]
@@ -86,13 +92,16 @@ DeclToks(d) ==
                      \o RefToks(d.ref) \o <<"SYNTAX">> \o TypeRhs(d.variant).t
     [] d.k = "objecttype" -> <<d.name, "OBJECT-TYPE", "SYNTAX">> \o ObjSyntax(d.syn).t \o Opt(d.units, <<"UNITS", Q("u")>>)
                              \o <<d.acckw, "read-only", "STATUS", "current">> \o Opt(d.descr, <<"DESCRIPTION", Q("d")>>) \o RefToks(d.ref)
-                             \o Opt(d.idx > 0, <<"INDEX", "{">> \o IdxToks(d.idx, 1) \o <<"}">>) \o Opt(d.aug, <<"AUGMENTS", "{", "baseRow", "}">>)
+                             \o Opt(d.idx > 0, <<"INDEX", "{">> \o (IF d.idx = 9 THEN TypeIdxToks ELSE IdxToks(d.idx, 1)) \o <<"}">>) \o Opt(d.aug, <<"AUGMENTS", "{", "baseRow", "}">>)
                              \o Defval(d.defval).t \o OidToks
     [] d.k = "objectgroup" -> <<d.name, "OBJECT-GROUP", "OBJECTS", "{">> \o NameToks(d.n) \o <<"}", "STATUS", "current", "DESCRIPTION", Q("d")>> \o RefToks(d.ref) \o OidToks
     [] d.k = "notifgroup" -> <<d.name, "NOTIFICATION-GROUP", "NOTIFICATIONS", "{">> \o NameToks(d.n) \o <<"}", "STATUS", "current", "DESCRIPTION", Q("d")>> \o RefToks(d.ref) \o OidToks
     [] d.k = "trap" -> <<d.name, "TRAP-TYPE", "ENTERPRISE", "someNode">> \o Opt(d.n > 0, <<"VARIABLES", "{">> \o NameToks(d.n) \o <<"}">>)
                        \o Opt(d.descr, <<"DESCRIPTION", Q("d")>>) \o RefToks(d.ref) \o <<"::=", "7">>
     [] d.k = "capabilities" -> <<d.name, "AGENT-CAPABILITIES", "PRODUCT-RELEASE", Q("p"), "STATUS", "current", "DESCRIPTION", Q("d")>> \o RefToks(d.ref) \o OidToks
+    [] d.k = "capsupports" -> <<d.name, "AGENT-CAPABILITIES", "PRODUCT-RELEASE", Q("p"), "STATUS", "current", "DESCRIPTION", Q("d"),
+                                "SUPPORTS", "M-ONE", "INCLUDES", "{", "grpOne", "}", "VARIATION", "someObj", "CREATION-REQUIRES", "{", "a-one", "}",
+                                "DESCRIPTION", Q("v")>> \o OidToks
     [] d.k = "macro" -> <<"OBJECT-TYPE", "MACRO", "@MACROBODY", "END">>
 
 DeclTree(d) ==
@@ -109,12 +118,13 @@ DeclTree(d) ==
                         <<"DESCRIPTION", "d">>, RefTree(d.ref), TypeRhs(d.variant).v>>>>
     [] d.k = "objecttype" -> <<"objectTypeClause", d.name, ObjSyntax(d.syn).v, IF d.units THEN <<"UNITS", "u">> ELSE NoneV, <<"MaxAccessPart", "read-only">>,
                                <<"Status", "current">>, IF d.descr THEN <<"DESCRIPTION", "d">> ELSE NoneV, RefTree(d.ref),
-                               IF d.aug THEN "baseRow" ELSE NoneV, IF d.idx > 0 THEN <<"INDEX", IdxTree(d.idx)>> ELSE NoneV, Defval(d.defval).v, OidTree>>
+                               IF d.aug THEN "baseRow" ELSE NoneV, IF d.idx > 0 THEN <<"INDEX", IF d.idx = 9 THEN TypeIdxTree ELSE IdxTree(d.idx)>> ELSE NoneV, Defval(d.defval).v, OidTree>>
     [] d.k = "objectgroup" -> <<"objectGroupClause", d.name, <<"Objects", Names(d.n)>>, <<"Status", "current">>, <<"DESCRIPTION", "d">>, RefTree(d.ref), OidTree>>
     [] d.k = "notifgroup" -> <<"notificationGroupClause", d.name, <<"Notifications", Names(d.n)>>, <<"Status", "current">>, <<"DESCRIPTION", "d">>, RefTree(d.ref), OidTree>>
     [] d.k = "trap" -> <<"trapTypeClause", d.name, <<"objectIdentifier", <<"someNode">>>>, IF d.n > 0 THEN <<"VarTypes", Names(d.n)>> ELSE <<>>,
                          IF d.descr THEN <<"DESCRIPTION", "d">> ELSE NoneV, RefTree(d.ref), Num("7")>>
     [] d.k = "capabilities" -> <<"agentCapabilitiesClause", d.name, <<"PRODUCT-RELEASE", "p">>, <<"Status", "current">>, <<"DESCRIPTION", "d">>, RefTree(d.ref), OidTree>>
+    [] d.k = "capsupports" -> <<"agentCapabilitiesClause", d.name, <<"PRODUCT-RELEASE", "p">>, <<"Status", "current">>, <<"DESCRIPTION", "d">>, NoneV, OidTree>>
     [] d.k = "macro" -> NoneV
 
 \* the shapes TLC explores (every optional part present and absent)
@@ -141,6 +151,7 @@ Shapes ==
 Reps == {[k |-> "value", name |-> "UpperValue", form |-> 2],
          [k |-> "objectidentity", name |-> "lowName", ref |-> TRUE],
          [k |-> "notification", name |-> "with-Hyphen9", n |-> 2, ref |-> FALSE],
+         [k |-> "notification", name |-> "lowName", n |-> 0, ref |-> TRUE],
          [k |-> "moduleidentity", name |-> "lowName", n |-> 2],
          [k |-> "type", name |-> "Up-Name2", variant |-> "range3"],
          [k |-> "type", name |-> "UpName", variant |-> "choice"],
